@@ -113,6 +113,8 @@ def ref_value(kind, hist, n):
 
 
 def execute(plan, focus, trace=False):
+    from ..core import apply_host_state
+    apply_host_state(plan)
     ctx = Ctx(focus, trace=trace)
     try:
         _run(plan, ctx)
